@@ -218,7 +218,7 @@ impl<'a> Checker<'a> {
     /// registers a redirection sequence may write
     fn scratch_mask(&self) -> u64 {
         match self.arch {
-            Arch::X86_64 => 1 << 0,                 // rax
+            Arch::X86_64 => 1 << 0 | 1 << 10 | 1 << 11, // rax, r10, r11: caller-saved and carry no argument
             Arch::A64 => 0x3FE00,                   // x9..x17
             Arch::Arm => 1 << 12,                   // ip
         }
